@@ -168,4 +168,28 @@ Section WithH.
     rewrite Ha in Ha'. injection Ha' as <-.
     exists q, (render_fields fs). rewrite session_independent, Hx. auto.
   Qed.
+
+  (* digest x retries: EVERY attempt whose challenge is supported is answered acceptably - the
+     second and later ones exactly like the first (nothing is remembered from attempt to attempt) *)
+  Theorem retry_attempts_all_answered user pass first xs :
+    Forall (fun x : first_response * bytes =>
+              r_err (fst x) = false /\ r_status (fst x) = 401%N /\ r_chal (fst x) <> [] /\
+              (exists c, parse_challenge (r_chal (fst x)) = inl c /\ supported c = true) /\
+              clean (snd x) = true) xs ->
+    Forall2 (fun (x : first_response * bytes) ex =>
+               exists c q hdr, parse_challenge (r_chal (fst x)) = inl c /\
+                 ex = [first; q] /\ w_auth q = Some hdr /\ w_body q = w_body first /\
+                 rfc7616_accepts H c (w_uri first) (w_method first) user pass (snd x) hdr = true)
+            xs (retry_attempts H user pass first xs).
+  Proof.
+    unfold retry_attempts, digest_session. induction xs as [|[rsp cn] r IH]; intros HF; [constructor|].
+    inversion HF as [|? ? [He [Hs [Hne [[c [Hp Hsup]] Hcn]]]] Hr]; subst. cbn [fst snd] in *.
+    cbn [map]. constructor; [|apply IH; exact Hr].
+    destruct (supported_is_answered H first rsp user pass cn c He Hs Hne Hp Hsup)
+      as [fs [q [Ha [Hx [Hq [Hb _]]]]]].
+    destruct (verifier_accepts c (w_uri first) (w_method first) user pass cn Hsup Hcn)
+      as [fs' [Ha' [_ Hacc]]].
+    rewrite Ha in Ha'. injection Ha' as <-.
+    exists c, q, (render_fields fs). cbn [fst snd]. rewrite Hx. auto.
+  Qed.
 End WithH.
